@@ -129,7 +129,7 @@ Proof.
   unfold keep_child. tauto.
 Qed.
 
-Lemma strip_id_l : forall n, scalars_within cloned_scalar_fields n = true -> strip n = n.
+Lemma strip_id_l : forall n, scalars_within copied_scalar_fields n = true -> strip n = n.
 Proof.
   induction n as [k sc kids IH] using node_ind'. simpl. intros Hc.
   apply andb_true_iff in Hc. destruct Hc as [Hs Hk]. f_equal.
@@ -141,7 +141,7 @@ Qed.
 
 (* clone is the identity exactly on what it copies: trees that use only copied members *)
 Lemma clone_id_l : forall n,
-  kids_within cloned_child_fields n = true -> scalars_within cloned_scalar_fields n = true ->
+  kids_within cloned_child_fields n = true -> scalars_within copied_scalar_fields n = true ->
   clone n = n.
 Proof.
   intros n Hk Hs. rewrite clone_strip_prune_l, prune_id_l by exact Hk. apply strip_id_l. exact Hs.
@@ -149,7 +149,7 @@ Qed.
 
 Lemma clone_within_l : forall n,
   kids_within cloned_child_fields (clone n) = true /\
-  scalars_within cloned_scalar_fields (clone n) = true.
+  scalars_within copied_scalar_fields (clone n) = true.
 Proof.
   induction n as [k sc kids IH] using node_ind'. simpl. split.
   - apply forallb_forall. intros p Hp. apply filter_In in Hp. destruct Hp as [Hp Hk].
@@ -219,3 +219,51 @@ Lemma call_pinned_pure : forall c1 c2 fn f targs,
   snd (call_pinned c1 fn f targs) = snd (call_pinned c2 fn f targs) /\
   fst (call_pinned c1 fn f targs) = c1.
 Proof. intros. unfold call_pinned. simpl. split; reflexivity. Qed.
+
+(* ------------------------------------------------------------------ monotonicity in the allowed members *)
+Lemma in_list_incl : forall a b f, incl a b -> in_list f a = true -> in_list f b = true.
+Proof.
+  intros a b f H. unfold in_list. rewrite !existsb_exists. intros [x [Hx He]]. exists x. split; [apply H; exact Hx | exact He].
+Qed.
+
+Lemma kids_within_mono : forall a b, incl a b -> forall n, kids_within a n = true -> kids_within b n = true.
+Proof.
+  intros a b Hab. induction n as [k sc kids IH] using node_ind'. simpl. rewrite !forallb_forall.
+  intros H p Hp. specialize (H p Hp). apply andb_true_iff in H. destruct H as [H1 H2].
+  rewrite Forall_forall in IH. rewrite (in_list_incl a b _ Hab H1), (IH p Hp H2). reflexivity.
+Qed.
+
+Lemma scalars_within_mono : forall a b, incl a b -> forall n, scalars_within a n = true -> scalars_within b n = true.
+Proof.
+  intros a b Hab. induction n as [k sc kids IH] using node_ind'. simpl. intros H.
+  apply andb_true_iff in H. destruct H as [H1 H2]. apply andb_true_iff. split.
+  - rewrite forallb_forall in *. intros p Hp. apply (in_list_incl a b _ Hab). apply H1. exact Hp.
+  - rewrite forallb_forall in *. intros p Hp. rewrite Forall_forall in IH. apply (IH p Hp). apply H2. exact Hp.
+Qed.
+
+(* when the tables say that every member is copied and visited: clone is the identity and instantiate is the
+   hand-monomorphised copy on EVERY tree built from members of ASTNode *)
+Lemma clone_id_complete_l :
+  incl ast_child_fields cloned_child_fields -> incl node_scalar_fields copied_scalar_fields ->
+  forall n, kids_within ast_child_fields n = true -> scalars_within node_scalar_fields n = true -> clone n = n.
+Proof.
+  intros Hc Hs n Hk Hsc. apply clone_id_l.
+  - apply (kids_within_mono _ _ Hc). exact Hk.
+  - apply (scalars_within_mono _ _ Hs). exact Hsc.
+Qed.
+
+Lemma strip_id_complete_l :
+  incl node_scalar_fields copied_scalar_fields ->
+  forall n, scalars_within node_scalar_fields n = true -> strip n = n.
+Proof. intros Hs n H. apply strip_id_l. apply (scalars_within_mono _ _ Hs). exact H. Qed.
+
+Lemma instantiate_is_mono_complete_l :
+  incl ast_child_fields inst_child_fields -> incl node_scalar_fields copied_scalar_fields ->
+  forall f targs r, instantiate f targs = Ok r ->
+    kids_within ast_child_fields f = true -> scalars_within node_scalar_fields f = true ->
+    r = clear_generic (mono (build_map (type_params_of f) targs) f).
+Proof.
+  intros Hc Hs f targs r Hi Hk Hsc.
+  rewrite <- (strip_id_complete_l Hs f Hsc) at 2.
+  apply instantiate_is_mono_l; [exact Hi|]. apply (kids_within_mono _ _ Hc). exact Hk.
+Qed.
